@@ -319,7 +319,7 @@ impl<T: Numeric> Atomic<T> {
             if execution.path.is_traversed() {
                 let mut seed = [0; MAX_ATOMIC_HISTORY];
 
-                let n = state.match_rmw_to_stores(&mut seed[..]);
+                let n = state.match_rmw_to_stores(&execution.threads, &mut seed[..]);
                 execution.path.push_load(&seed[..n]);
             }
 
@@ -846,7 +846,7 @@ impl State {
         n
     }
 
-    fn match_rmw_to_stores(&self, dst: &mut [u8]) -> usize {
+    fn match_rmw_to_stores(&self, threads: &thread::Set, dst: &mut [u8]) -> usize {
         let mut n = 0;
         let cnt = self.cnt as usize;
 
@@ -863,8 +863,13 @@ impl State {
                     continue;
                 }
 
-                if self.is_mo_before(i, j) {
-                    // There is a newer store.
+                if self.stores[j].rmw_source == Some(i as u8) {
+                    // Another rmw operation already read this store.
+                    continue 'outer;
+                }
+
+                if self.is_mo_before(i, j) && self.stores[j].first_seen.is_seen_by_current(threads) {
+                    // There is a newer store the thread has already seen.
                     continue 'outer;
                 }
             }
